@@ -3,7 +3,7 @@ from props.common import *
 
 ASSUMPTIONS = ['labels are shorter than 2^63 code points (Rust allocation bound); positions are any usize']
 TRUSTED = ['transcription of RFC 5892 Appendix A in lean/Precis/Spec/Rfc5892.lean', 'Unicode 6.3.0 Scripts / DerivedJoiningType / UnicodeData as parsed by tools/ucd_spec.py']
-FACT_MODULES = ['Precis.Facts.CtxTables', 'Precis.Facts.RegistryId', 'Precis.Facts.RegistryFf', 'Precis.Facts.SpecSF']
+FACT_MODULES = ['Precis.Facts.CtxTables', 'Precis.Facts.RegistryId', 'Precis.Facts.RegistryFf', 'Precis.Facts.SpecSF', 'Precis.Facts.SrcTie']
 TABLES = ['is_virama', 'is_greek', 'is_hebrew', 'is_hiragana', 'is_katakana', 'is_han', 'is_dual_joining', 'is_left_joining', 'is_right_joining', 'is_transparent']
 RULES = ['zwnj', 'zwj', 'middledot', 'keraia', 'hebrew', 'katakana', 'arabic', 'extarabic']
 ROLES = [('zwj', lambda n: [n, 0x200D], 1), ('zwnj', lambda n: [n, 0x200C, 0x627], 1), ('zwnj', lambda n: [0x628, 0x200C, n], 1),
